@@ -92,6 +92,29 @@ pub struct Case {
     /// simulated wall-clock jump (seconds, may be negative) before operation i
     pub clock_jumps: Vec<i64>,
     pub hash_seed: u64,
+    /// the archive is read back under another time zone than it was written in (index into READ_ZONES; 0 = same):
+    /// what was stored is an instant, whatever the reader's local offset
+    #[serde(default)]
+    pub read_tz: u8,
+}
+
+/// time zones for the read-back: far east and far west of the writer's, UTC, and one with a half-hour offset
+pub const READ_ZONES: [&str; 6] = ["", "UTC", "Asia/Tokyo", "Pacific/Kiritimati", "Etc/GMT+12", "Asia/Kolkata"];
+
+/// puts the process's TZ back when the run ends (also by a panic of the harness)
+struct TzGuard(Option<std::ffi::OsString>);
+impl TzGuard {
+    fn new() -> Self {
+        TzGuard(std::env::var_os("TZ"))
+    }
+}
+impl Drop for TzGuard {
+    fn drop(&mut self) {
+        match &self.0 {
+            Some(v) => std::env::set_var("TZ", v),
+            None => std::env::remove_var("TZ"),
+        }
+    }
 }
 
 pub const ARCHIVE: &str = "a.ommx";
@@ -130,7 +153,9 @@ fn gen_msg_for(kind: Kind, seed: u64) -> Msg {
 }
 
 fn gen_instant(rng: &mut Rng) -> Instant {
-    let secs = match rng.below(6) {
+    let secs = match rng.below(7) {
+        // beyond the range of a nanosecond counter in an i64 (2262-04-11), year 3000, the last days of year 9999
+        6 => *rng.pick(&[9_223_372_037i64, 32_503_680_000, 253_402_000_000]) + rng.range(0, 100_000),
         // before 1970, but not before 1940: the three supported zones then use offsets that are whole minutes
         // (RFC 3339 cannot express the seconds of e.g. -03:30:52, Newfoundland local mean time until 1935)
         0 => -rng.range(1, 900_000_000),
@@ -181,10 +206,10 @@ fn gen_ann(rng: &mut Rng, kind: Kind) -> Ann {
                 a.dataset = Some(gen_text(rng));
             }
             if rng.chance(1, 2) {
-                a.variables = Some(*rng.pick(&[0usize, 1, 42, 1 << 40]));
+                a.variables = Some(*rng.pick(&[0usize, 1, 42, 1 << 40, (1 << 53) + 1, u32::MAX as usize + 1]));
             }
             if rng.chance(1, 2) {
-                a.constraints = Some(*rng.pick(&[0usize, 7, usize::MAX]));
+                a.constraints = Some(*rng.pick(&[0usize, 7, usize::MAX, usize::MAX - 1, i64::MAX as usize + 2]));
             }
         }
         _ => {
@@ -591,7 +616,7 @@ impl Prop for C20 {
         let (chunk_r, chunk_w) = if mode < 4 { (Chunk::Whole, Chunk::Whole) } else { (chunk(rng), chunk(rng)) };
         let clock_jumps = (0..n_ops + 2).map(|_| if rng.chance(1, 3) { *rng.pick(&[3600i64, -3600, 86_400 * 365, -86_400 * 400, 1, -1, 13 * 3600 + 1800]) } else { 0 }).collect();
         let foreign = if rng.chance(1, 12) { 1 + rng.below(2) as u8 } else { 0 };
-        Case { name, layers, config: rng.chance(1, 3), via_dir: rng.chance(1, 3), foreign, faults, chunk_r, chunk_w, clock_jumps, hash_seed: rng.next() }
+        Case { name, layers, config: rng.chance(1, 3), via_dir: rng.chance(1, 3), foreign, faults, chunk_r, chunk_w, clock_jumps, hash_seed: rng.next(), read_tz: if rng.chance(1, 4) { 1 + rng.below(5) as u8 } else { 0 } }
     }
     fn enum_plan(&self, tier: Tier, seed: u64) -> Vec<(u64, u64)> {
         // (a) the disk fills up after a *total* byte budget, whichever builder call crosses it: a grid of 400
@@ -786,6 +811,13 @@ impl Prop for C20 {
         // ---- every builder call returned Ok: a fault-free read must equal the model
         x.begin_op(n_ops);
         jump(x, n_ops as usize);
+        let _tz_guard = TzGuard::new();
+        if case.read_tz != 0 {
+            // the reader sits in another time zone (chrono looks at TZ again once its cache is a second old)
+            std::env::set_var("TZ", READ_ZONES[case.read_tz as usize % READ_ZONES.len()]);
+            x.jump_clock(2);
+            x.count("probe.read_in_another_time_zone");
+        }
         let name = case.name.clone();
         let pass = x.sut(|| -> anyhow::Result<Pass> {
             let mut a = Artifact::from_oci_archive(&path)?;
@@ -931,6 +963,9 @@ impl Prop for C20 {
         if !c.chunk_w.is_whole() {
             out.push(Case { chunk_w: Chunk::Whole, ..c.clone() });
         }
+        if c.read_tz != 0 {
+            out.push(Case { read_tz: 0, ..c.clone() });
+        }
         if c.clock_jumps.iter().any(|j| *j != 0) {
             out.push(Case { clock_jumps: vec![], ..c.clone() });
         }
@@ -976,7 +1011,7 @@ impl Prop for C20 {
     }
 
     fn rule(&self) -> String {
-        "one run = (history of 0-6 add operations over the four layer kinds with seeded messages (maps, nested functions, removed constraints, dependencies, empty messages) and annotation specs (title, authors, created explicit/now, licence, dataset, counts, start/end, digests, JSON parameters, user keys), some messages repeated so that layers share a digest; named or unnamed archive; optional config; optional route archive -> OCI directory -> re-saved archive; or a non-OMMX image; write-side fault in one operation: ENOSPC at a byte budget, EIO, EINTR, short writes, open failure; read-side faults; chunking; simulated-clock jumps between operations; hash seed). Enumerated part: for each of N histories the disk fills up after a total byte budget on a grid of 400 budgets (every 61 bytes, and around every tar block boundary); for each of M histories a hard read error at every one of the first 300 read calls of the read-back. distinct = distinct event-log hash; non-trivial = >=2 layers or a fault fired".into()
+        "one run = (history of 0-6 add operations over the four layer kinds with seeded messages (maps, nested functions, removed constraints, dependencies, empty messages) and annotation specs (title, authors, created explicit/now, licence, dataset, counts, start/end, digests, JSON parameters, user keys), some messages repeated so that layers share a digest; named or unnamed archive; optional config; optional route archive -> OCI directory -> re-saved archive; or a non-OMMX image; write-side fault in one operation: ENOSPC at a byte budget, EIO, EINTR, short writes, open failure; read-side faults; chunking; simulated-clock jumps between operations; read-back under another time zone than the writer's; hash seed). Enumerated part: for each of N histories the disk fills up after a total byte budget on a grid of 400 budgets (every 61 bytes, and around every tar block boundary); for each of M histories a hard read error at every one of the first 300 read calls of the read-back. distinct = distinct event-log hash; non-trivial = >=2 layers or a fault fired".into()
     }
     fn assumptions(&self) -> Vec<String> {
         vec![
